@@ -304,8 +304,11 @@ check_against_kernels(const Runner& run, const Axis* kk, const json& c, const ch
               const int p[3] = { i, j, k };
               bool interior = true;
               for (int a = 0; a < 3; ++a)
-                if (!kk[a].k.empty() && (p[a] - kk[a].k.mx() < lo[a] || p[a] - kk[a].k.mn > hi[a]))
-                  interior = false;
+                {
+                  const int kmn = kk[a].k.empty() ? 0 : kk[a].k.mn, kmx = kk[a].k.empty() ? 0 : kk[a].k.mx();
+                  if (p[a] - kmx < lo[a] || p[a] - kmn > hi[a])
+                    interior = false;
+                }
               if (!interior)
                 continue;
               ++n;
